@@ -108,6 +108,12 @@ def evaluate(ctx, rng, tier, focus, budget, broken):
         plan.append((h, k))
     for r, k in ((0, 10), (0, 25), (1, 27), (1, 14), (2, 9)):
         plan.append((gen.rand_cell(rng, res=r), k))    # wraps (more than) half the globe at res 0/1
+    # rings / unsafe disks that reach the far side of the globe at the coarsest resolutions: every k around the
+    # point where the ring starts to wrap (res 0: k 4..8; res 1: k 10..13), several origins each
+    for _ in range(6 * budget if tier == "quick" else 40 * budget):
+        plan.append((gen.rand_cell(rng, res=0), rng.randrange(3, 9)))
+    for _ in range(3 * budget if tier == "quick" else 20 * budget):
+        plan.append((gen.rand_cell(rng, res=1), rng.randrange(9, 14)))
     for h, k in plan:
         x = gen.hx(h)
         ops += [f"disk {x} {k}", f"disksafe {x} {k}", f"diskunsafe {x} {k}", f"ring {x} {k}", f"disk0 {x} {k}"]
@@ -150,7 +156,10 @@ def evaluate(ctx, rng, tier, focus, budget, broken):
             exp_ring = {c for c, d in bfs.items() if d == k}
             if set(got) != exp_ring or len(got) != len(exp_ring):
                 # known finding F7: the walk closes (holonomy cancels) around pentagons it never touches
-                enclosed = any(gen.is_pentagon(c_) and d_ < k for c_, d_ in bfs.items())
+                # (the unchanged walk returns E_PENTAGON as soon as it visits a pentagon, so a successful ring that
+                # contains a pentagon cell is never this finding)
+                enclosed = (any(gen.is_pentagon(c_) and d_ < k for c_, d_ in bfs.items())
+                            and not any(gen.is_pentagon(c_) for c_ in got))
                 viol_.append(viol("gridRingUnsafe succeeded with something else than the ring at distance k",
                                   ops[5 * i + 3], f"{len(exp_ring)} cells", a_ring[:200],
                                   key="ringUnsafe-encloses-pentagons" if enclosed else None))
